@@ -29,7 +29,7 @@ template <class T> __attribute__((noinline)) T toEmpty() { return bpp::TextTools
 class Exec {
   const Plan& p; Ctx& ctx; bool cmp;
   std::vector<Doc> docs;
-  std::map<std::string, std::string> lastMap; bool haveMap = false, mapPristine = false, mapAcyclic = false, mapResolved = false;
+  std::map<std::string, std::string> lastMap; bool haveMap = false, mapPristine = false, mapAcyclic = false, mapResolved = false, mapDollar = false;
   std::unique_ptr<bpp::DataTable> lastTable;
   long slotCounter = 0;
 public:
@@ -292,7 +292,7 @@ public:
   static std::string delimOf(long b) { if (b & NATURAL) return "="; switch ((b >> 1) % 8) { case 6: return ":"; case 7: return "=="; default: return "="; } }
   void storeMap(const Doc& d, const std::map<std::string, std::string>& m, bool defaultDelim) {
     lastMap = m; haveMap = true; mapResolved = false;
-    mapPristine = d.kind == K_OPT && d.pristine() && defaultDelim; mapAcyclic = !d.opt.cyclic;
+    mapPristine = d.kind == K_OPT && d.pristine() && defaultDelim; mapAcyclic = !d.opt.cyclic; mapDollar = d.opt.dollarShape;
     ctx.evi("keys", static_cast<long>(m.size()));
     uint64_t h = 7; for (auto& kv : m) h = h * 1099511628211ULL ^ strHash(kv.first) ^ (strHash(kv.second) << 1);
     ctx.ev("map=" + std::to_string(h));
@@ -349,7 +349,22 @@ public:
     const char* vc = VC[cmp ? 0 : o.b % 6];
     std::map<std::string, std::string> mapBefore = lastMap;
     int g = guard("AttributesTools::resolveVariables", [&] { if ((o.b / 6) & 1) bpp::AttributesTools::resolveVariables(lastMap); else bpp::AttributesTools::resolveVariables(lastMap, vc[0], vc[1], vc[2]); });
-    if (cmp && mapPristine && mapAcyclic) {
+    if (cmp && mapPristine && mapAcyclic && mapDollar) {
+      // substitution itself can spell new references here: assert exactly the statement — a fixed point in which no resolvable reference remains
+      rt(g == 0, "optfile", "resolve-raised", "resolveVariables raised on acyclic definitions");
+      for (auto& kv : lastMap) {
+        size_t p = 0;
+        while ((p = kv.second.find("$(", p)) != std::string::npos) {
+          size_t e = kv.second.find(')', p);
+          if (e != std::string::npos) rt(mapBefore.count(kv.second.substr(p + 2, e - p - 2)) == 0, "optfile", "resolvable-reference-remains", "after resolveVariables " + kv.first + " = '" + kv.second + "' still refers to a defined variable");
+          p += 2;
+        }
+      }
+      std::map<std::string, std::string> again = lastMap;
+      int g2 = guard("AttributesTools::resolveVariables", [&] { bpp::AttributesTools::resolveVariables(again); });
+      rt(g2 == 0 && again == lastMap, "optfile", "not-a-fixed-point", "a second resolveVariables changed the map");
+      ctx.probe("compared:resolve-dollar-shape");
+    } else if (cmp && mapPristine && mapAcyclic) {
       rt(g == 0, "optfile", "resolve-raised", "resolveVariables raised on acyclic definitions");
       for (auto& kv : lastMap) rt(kv.second.find("$(") == std::string::npos, "optfile", "unresolved-reference", "after resolveVariables " + kv.first + " = '" + kv.second + "'");
       // documented meaning of a reference (class documentation: file=$(data).out with data=LSU gives LSU.out); undefined names vanish
